@@ -131,6 +131,19 @@ def mode_tail(p):
                                   "variances": m.variances.tolist(), "sigmas_from_means": k},
                         "observed": got.tolist(), "expected": exp.tolist(),
                         "what": "log_likelihood of a far-tail sample is not the finite correct value"}
+            # the same tail sample scored INSIDE a batch that also holds samples from the bulk (NumPy and row-chunked Dask)
+            bulk = m.means[rs.randint(0, C, size=3)] + rs.normal(size=(3, D)) * 0.1
+            xb = np.vstack([bulk[:2], x[None, :], bulk[2:]])
+            import dask.array as da
+            for variant, data in (("numpy batch", xb), ("dask batch", da.from_array(xb, chunks=(2, D)))):
+                with np.errstate(all="ignore"):
+                    got = np.asarray(m.log_likelihood(data))
+                exp = ref_ll(xb, m.weights, m.means, m.variances)
+                if not np.all(np.isfinite(got)) or not close(got, exp, 1e-7):
+                    return {"input": {"x": xb.tolist(), "variant": variant, "weights": m.weights.tolist(), "means": m.means.tolist(),
+                                      "variances": m.variances.tolist(), "sigmas_from_means": k},
+                            "observed": got.tolist(), "expected": exp.tolist(),
+                            "what": "a far-tail sample scored inside a %s with bulk samples does not get the finite correct value" % variant}
     return search(one, 20)
 
 
@@ -195,6 +208,22 @@ def mode_stats_add(p):
         for f in b0:
             if not np.array_equal(b0[f], getattr(b, f)):
                 return {"field": f, "what": "right operand modified by the addition"}
+        # an accumulator that starts empty and collects the blocks one after the other: the blocks stay what they were
+        a2, b2 = m.acc_stats(xa), m.acc_stats(xb)
+        keep = {f: np.array(getattr(a2, f), copy=True) for f in ("t", "n", "sum_px", "sum_pxx", "log_likelihood")}
+        acc = GMMStats(C, D)
+        if inplace:
+            acc += a2
+            acc += b2
+        else:
+            acc = (acc + a2) + b2
+        for f in keep:
+            if not np.array_equal(keep[f], getattr(a2, f)):
+                return {"field": f, "observed": np.asarray(getattr(a2, f)).tolist(), "expected": keep[f].tolist(), "input": {"xa": xa.tolist(), "xb": xb.tolist()},
+                        "what": "the statistics of the first block were modified when a second block was added to the accumulator that had received them"}
+            if not close(getattr(acc, f), getattr(whole, f), 1e-8):
+                return {"field": f, "observed": np.asarray(getattr(acc, f)).tolist(), "expected": np.asarray(getattr(whole, f)).tolist(),
+                        "what": "an empty accumulator that collected two blocks differs from the statistics of the whole set"}
         # shape refusal
         for (c2, d2) in ((C + 1, D), (C, D + 1)):
             o = GMMStats(c2, d2)
@@ -249,7 +278,13 @@ def mode_ml_mstep(p):
             return {"input": {"x": x.tolist(), "block_sizes": [cut, N - cut]}, "observed": float(avg), "expected": whole,
                     "what": "m_step over two blocks of unequal size returns %.9g, the average log-likelihood of all samples is %.9g" % (float(avg), whole)}
         for um, uv, uw in itertools.product((True, False), repeat=3):
-            m = mk(C, D, seed, update_means=um, update_variances=uv, update_weights=uw, max_fitting_steps=1, **extra)
+            if seed % 4 == 3:
+                # the trainer is re-assigned after construction (set_params is the scikit-learn way to configure an estimator)
+                m = mk(C, D, seed, trainer="map", ubm=mk(C, D, seed + 100), update_means=um, update_variances=uv, update_weights=uw,
+                       max_fitting_steps=1, **extra)
+                m.set_params(trainer="ml")
+            else:
+                m = mk(C, D, seed, update_means=um, update_variances=uv, update_weights=uw, max_fitting_steps=1, **extra)
             if extra:
                 m.variance_thresholds = 1e-12
                 m.variances = m.variances * (np.array([1e-3, 1.0, 1e-2])[:D] ** 2)
@@ -311,10 +346,18 @@ def mode_map_mstep(p):
         prior = (ubm.weights.copy(), ubm.means.copy(), ubm.variances.copy())
         st = ref_estep(x, *prior)
         for um, uv, uw in itertools.product((True, False), repeat=3):
+            if uv and p.get("no_variances"):
+                continue        # the dispatch of the M-step, not the variance blend (recorded finding KF-MAP-VAR), is in question
             for r, alpha in ((4.0, 0.5), (None, 0.3)):
                 from bob.learn.em import GMMMachine
-                m = GMMMachine(C, trainer="map", ubm=ubm, update_means=um, update_variances=uv, update_weights=uw,
-                               max_fitting_steps=1, map_relevance_factor=r, map_alpha=alpha)
+                if seed % 2:
+                    # configured for MAP after construction (set_params / attribute assignment)
+                    m = GMMMachine(C, ubm=ubm, update_means=um, update_variances=uv, update_weights=uw,
+                                   max_fitting_steps=1, map_relevance_factor=r, map_alpha=alpha)
+                    m.set_params(trainer="map")
+                else:
+                    m = GMMMachine(C, trainer="map", ubm=ubm, update_means=um, update_variances=uv, update_weights=uw,
+                                   max_fitting_steps=1, map_relevance_factor=r, map_alpha=alpha)
                 m.fit(x)
                 w, mu, v = ref_map_mstep(prior, st, um, uv, uw, r, alpha, m.mean_var_update_threshold, m.variance_thresholds)
                 for nm, got, exp in (("weights", m.weights, w), ("means", m.means, mu), ("variances", m.variances, v)):
